@@ -14,7 +14,7 @@ RULE = ("a case is a history of 2-40 steps {new KeyFile object, enter, exit (pro
         "from a file state in {absent, valid, empty, 1/16/31/33/64 bytes, parent directory missing, parent is a "
         "regular file}; checked against a 20-line model (file bytes; per object: depth, key); non-trivial = at least "
         "one enter and one encrypt/decrypt were judged; distinct = distinct (initial state, step list)")
-REQUIRED = ("key_file_names_a_shell_would_expand", "key_file_names_with_percent_sign", "key_file_named_through_symlink_and_dotdot", "key_file_named_relative_to_home", "key_file_replaced_with_preserved_timestamps", "exits_with_exception", "enter_ok_judged", "enter_rejected_judged", "key_measured_from_xor", "outside_context_rejected",
+REQUIRED = ("public_generate_key_calls", "key_file_names_a_shell_would_expand", "key_file_names_with_percent_sign", "key_file_named_through_symlink_and_dotdot", "key_file_named_relative_to_home", "key_file_replaced_with_preserved_timestamps", "exits_with_exception", "enter_ok_judged", "enter_rejected_judged", "key_measured_from_xor", "outside_context_rejected",
             "retention_scans", "created_once_checked", "nested_enter_judged", "reenter_after_rejection_judged")
 ASSUMPTIONS = ["the key in use is measured as xor_ciphertext XOR known_plaintext (48 bytes) and by decrypting AES "
                "output with the pure-Python oracle under the expected key",
@@ -58,7 +58,13 @@ def _unreadable_key_file(case, ctx, res):
     """A valid key file that the process may write but not read (an unprivileged owner, mode 0200): every open must fail and
     the file must keep its 32 bytes.  The scenario runs in a forked child that gives up root."""
     cc = ctx.cc
-    path = os.path.join(ctx.dir, "wo.key")
+    path = given = os.path.join(ctx.dir, "wo.key")
+    if case["r"] % 2:
+        # the file is named relative to the home directory
+        hd = os.path.join(os.path.expanduser("~"), "c07wo-" + os.path.basename(ctx.dir))
+        os.makedirs(hd, exist_ok=True)
+        path, given = os.path.join(hd, "wo.key"), "~/" + os.path.basename(hd) + "/wo.key"
+        res.count("unreadable_key_files_named_relative_to_home")
     key = bytes((case["r"] + 11 * i) % 256 for i in range(32))
     with open(path, "wb") as fp:
         fp.write(key)
@@ -66,7 +72,7 @@ def _unreadable_key_file(case, ctx, res):
     try:
         os.chown(path, uid, uid)
         os.chmod(path, 0o200)
-        cur = ctx.dir
+        cur = os.path.dirname(path)
         while cur not in ("/", ""):
             os.chmod(cur, os.stat(cur).st_mode | 0o011)  # the child has to reach the file
             cur = os.path.dirname(cur)
@@ -89,7 +95,7 @@ def _unreadable_key_file(case, ctx, res):
                 out = []
                 for _ in range(2):
                     try:
-                        with cc.KeyFile(path) as k:
+                        with cc.KeyFile(given) as k:
                             k.encrypt(b"x", "xor")
                         out.append("opened")
                     except BaseException as exc:  # noqa: B902
@@ -133,7 +139,8 @@ def generate(rng, ctx):
             kind = weighted(rng, [(6, "enter"), (2, "enc"), (1, "dec")])
         else:
             kind = weighted(rng, [(6, "enter"), (5 if depth[o] else 1, "exit"), (6, "enc"), (3, "dec"),
-                                  (2, "new"), (3 if not any(depth) else 0, "file")])
+                                  (2, "new"), (3 if not any(depth) else 0, "file"),
+                                  (0.8 if (not any(depth) and where == "ok") else 0, "genkey")])
         if kind == "exit" and depth[o] == 0:
             kind = "enc"
         if kind == "enter":
@@ -152,6 +159,10 @@ def generate(rng, ctx):
         elif kind == "new":
             if depth[o] == 0:
                 steps.append(["new", o])
+        elif kind == "genkey":
+            steps.append(["genkey", o])
+            bad_now = False
+            last_failed_obj = None
         elif kind == "file" and where == "ok":
             st = _file_state(rng)
             if rng.random() < 0.4:
@@ -292,6 +303,24 @@ def run(case, ctx, res):
             objs[o] = cc.KeyFile(given)
             depth[o], key[o] = 0, None
             rejected_before.discard(o)
+            continue
+        if kind == "genkey":
+            # the public generate_key(): writes a new key file; it hands no key to anybody - a closed object stays closed
+            # (and an open session goes on with the key it has)
+            if where != "ok":
+                continue
+            try:
+                kf.generate_key()
+            except Exception as exc:
+                res.viol("M-model", "generate-key-raises", "step %d: generate_key() raised %r" % (idx, exc))
+                continue
+            res.count("public_generate_key_calls")
+            model_file = _read(path)
+            if model_file is None or len(model_file) != 32:
+                res.viol("M-file", "generate-key-file", "step %d: generate_key() left %s" % (idx, "no file" if model_file is None else "%d bytes" % len(model_file)))
+            if model_file is not None:
+                everkeys.append(model_file)
+            rejected_before.clear()
             continue
         before = _read(path)
         log.clear()
